@@ -2,7 +2,7 @@
 (* Role C: validates events recorded from the implementation (stateless      *)
 (* decoders).  One TLC state per event; verdicts are total: a rejected event *)
 (* is printed (REJECT, id, failing clause) and the run continues.            *)
-EXTENDS TV_Core, TLC, Json, IOUtils
+EXTENDS TV_Core, TV_Alt, TLC, Json, IOUtils
 
 Events == ndJsonDeserialize(IOEnv.TRACE_FILE)
 
@@ -14,6 +14,23 @@ Verdict(e) ==
     [] e.fn = "icao" -> V_icao_rel(e, canon)
     [] e.fn = "adsb.icao" -> V_icao_rel(e, canon)
     [] e.fn = "allcall.icao" -> V_allcall_icao(e)
+    [] e.fn = "common.altitude" -> V_common_altitude(e)
+    [] e.fn = "common.altcode" -> V_altcode(e)
+    [] e.fn = "surv.altitude" -> V_surv_altitude(e)
+    [] e.fn = "adsb.altitude" -> V_adsb_altitude(e)
+    [] e.fn = "adsb.altitude05" -> V_altitude05(e)
+    [] e.fn = "common.squawk" -> V_squawk(e)
+    [] e.fn = "common.idcode" -> V_idcode(e)
+    [] e.fn = "surv.identity" -> V_surv_identity(e)
+    [] e.fn = "adsb.emergency_squawk" -> V_emergency_squawk(e)
+    [] e.fn = "surv.fs" -> V_surv_fs(e)
+    [] e.fn = "surv.dr" -> V_surv_dr(e)
+    [] e.fn = "surv.um" -> V_surv_um(e)
+    [] e.fn = "common.fs" -> V_common_fs(e)
+    [] e.fn = "common.dr" -> V_common_dr(e)
+    [] e.fn = "common.um" -> V_common_um(e)
+    [] e.fn = "allcall.capability" -> V_capability(e)
+    [] e.fn = "allcall.interrogator" -> V_interrogator(e)
     [] OTHER -> "unknown_fn"
 
 Init == l = 1 /\ nbad = 0 /\ canon = <<>> /\ TLCSet(1, 0)
